@@ -120,4 +120,10 @@ CLAIMS = {
         "note": "needs a pty for the terminal half (inconclusive, not passed, if none can be opened); Windows-specific probes are not executed",
         "technique": "runtime monitoring: exhaustive configuration enumeration in a child process + offline event-log checker against a decision table",
     },
+    "C19": {
+        "text": "Real threads print uniquely tagged multi-fragment records through every print path into pipes; an offline checker verifies contiguity, exactly-once and per-thread order on the byte streams and reports how many thread switches it saw.  The global choice is checked as an atomic register over recorded histories, natively, under Miri (16/128 scheduler seeds, with a canary race that must be reported) and under ThreadSanitizer (thorough).  Schedules are those the OS / Miri produced: counted, not enumerated.",
+        "design_ref": "7 C19, 5",
+        "note": "delay injection is on the caller side (Display impls); no hook inside the library",
+        "technique": "runtime monitoring: offline history checker over pipe output (contiguity / exactly-once / order), register history checker, Miri many-seeds and ThreadSanitizer lanes",
+    },
 }
